@@ -63,6 +63,8 @@ def instances(tier, seed):
     for what in ('parameter', 'variable'):
         for N, grid, T in ((3, fam.G_UNI, ('num', Fr(2))), (2, fam.G_GEO_LOC, ('free', Fr(3, 2)))):
             add(kind='signal-dynamics', what=what, order=[1, 2][N % 2], N=N, grid=grid, T=T)
+    add(kind='signal-dynamics', what='both', order=2, N=3, grid=fam.G_UNI, T=('num', Fr(2)))
+    add(kind='signal-dynamics', what='both', order=1, N=2, grid=fam.G_GEO_LOC, T=('free', Fr(3, 2)))
     for rep in range(2 if tier == 'quick' else 6):
         add(kind='chain', N=[2, 3, 4][rep % 3], grid=[fam.G_UNI, fam.G_GEO_LOC][rep % 2], T=[('num', Fr(2)), ('free', Fr(3, 2))][rep % 2], refine=[2, 3][rep % 2])
     return items
@@ -422,21 +424,30 @@ def run_signal_dynamics(item):
         pc = ocp.parameter(grid='control')
         w = ocp.variable()
         ncoef = N + order
+        sig2 = None
         if what == 'parameter':
             sig = ocp.parameter(grid='bspline', order=order)
             ocp.set_value(sig, ca.DM([0.5 + 0.25 * j for j in range(ncoef)]).T)
+        elif what == 'both':
+            # a bspline PARAMETER declared before a bspline VARIABLE of another order, and der() of the first one:
+            # declaration order, registration order in the method and the layout of the system functions all differ
+            sig = ocp.parameter(grid='bspline', order=order)
+            ocp.set_value(sig, ca.DM([0.5 + 0.25 * j for j in range(ncoef)]).T)
+            sig2 = ocp.variable(grid='bspline', order=max(order - 1, 0))
         else:
             sig = ocp.variable(grid='bspline', order=order)
         ocp.set_value(a, 1.5)
         ocp.set_value(pc, ca.DM([2.0 + j for j in range(N)]).T)
-        ocp.set_der(x, a * pc * u + w + sig)
+        ocp.set_der(x, a * pc * u + w + sig + (3 * sig2 if sig2 is not None else 0))
+        if sig2 is not None:
+            ocp.subject_to(ocp.der(sig) + x <= 50)
         ocp.subject_to(ocp.at_t0(x) == 0)
         ocp.add_objective(ocp.integral(u * u) + w * w + ocp.at_tf(x) + ocp.T)
         ocp.method(MultipleShooting(N=N, M=1, intg='expl_euler', grid=make_grid(item['grid'])))
         ocp.solver('ipopt')
         ts, xs = ocp.sample(x, grid='control')
         us = ocp.sample(u, grid='control-')[1]
-        ss = ocp.sample(sig, grid='control')[1]
+        ss = ocp.sample(sig + (3 * sig2 if sig2 is not None else 0), grid='control')[1]
         pcs = ocp.sample(pc, grid='control-')[1]
         opti_ = ocp._method.opti
         outs = [ts, xs, us, ss, pcs, ocp.value(a), ocp.value(w), opti_.g]
